@@ -77,6 +77,8 @@ def run(facts, rep):
     d9_reference_window(facts, rep)
     d10_token_ownership(facts, rep)
     d11_local_ownership(facts, rep)
+    d12_no_user_code_after_self_destruction(facts, rep)
+    d12_fold_tolerates_throwing_join(facts, rep)
     idiom(facts, rep)
 
 
@@ -625,3 +627,82 @@ def d11_local_ownership(facts, rep):
     if n < 1:
         raise AnalysisBroken('no function with locally owned small objects found (start_scan::run)')
     rep.floor('D11', 1, 'locally owned small objects')
+
+
+def d12_no_user_code_after_self_destruction(facts, rep):
+    """When execute() of a task leaves by an exception the dispatcher records it, cancels the group and then calls cancel() ON THE
+    SAME TASK, which finalises it (destroys it, unwinds the tree, frees the memory).  That protocol only works while the task
+    is still intact when the exception escapes: a task that has already run its own destructor (`this->~T()`) and then calls
+    something that runs user code (Body::join while folding the tree) is finalised a second time if that user code throws -
+    second destructor call, second decrement of the same parent node, the interrupted fold never reaches the root: the wait
+    of the algorithm never returns (or memory is corrupted).  Rule: in every function that destroys `this`, no element
+    reachable after the destructor call can raise a user exception (user operations by template-parameter type, `throw`,
+    allocation; interprocedural), unless it runs under a catch(...) handler."""
+    from rules.common import MayThrow
+    mt = MayThrow(facts, external_may_throw=False)
+    n = 0
+    for fn in sorted(facts.fns.values(), key=lambda f: f.q):
+        if not fn.q.startswith('tbb::detail::') or fn.kind != 'method':
+            continue
+        dts = []
+        for pos, s, node, d in calls(fn):
+            if (d or {}).get('n') == '(dtor)' and fn.n(fn.strip(node.get('obj', -1))).get('k') == 'this':
+                dts.append((pos, s, node))
+        if not dts:
+            continue
+        for pos, s, node in dts:
+            n += 1
+            reached, ex, par = fn.walk(pos)
+            bad = []
+            for q in sorted(reached):
+                if q == pos:
+                    continue
+                e = fn.elems(q[0])[q[1]]
+                if not isinstance(e, int) or fn.nodes[e].get('k') not in ('call', 'ctor', 'new', 'throw'):
+                    continue
+                if not mt.node(fn, e):
+                    continue
+                t = fn.nodes[e].get('tr')
+                if t is not None and any(nd and nd.get('k') == 'catch' and nd.get('try') == t and nd.get('ell') for nd in fn.nodes):
+                    continue
+                cd = fn.callee(e) or {}
+                bad.append('%s at line %s' % (cd.get('n') or fn.nodes[e].get('k'), fn.nodes[e].get('ln')))
+            rep.ob('D12', 'K9', fn, 'after the task has destroyed itself nothing that can raise a user exception runs in the same call', not bad,
+                   'user code can throw after `this->~%s()`: %s - the exception leaves execute(), the dispatcher calls cancel() on the destroyed '
+                   'task, which is finalised a second time; the interrupted fold never reaches the root and the wait of the algorithm '
+                   'never returns' % (fn.p.split('::')[-2], ', '.join(sorted(set(bad))[:4])), ln=node.get('ln'), key_extra='self-dtor')
+    if n < 3:
+        raise AnalysisBroken('functions destroying `this`: %d (expected the finalize() functions of the algorithm tasks)' % n)
+    rep.floor('D12', 3, 'self-destroying functions')
+
+
+def d12_fold_tolerates_throwing_join(facts, rep):
+    """A tree fold that calls a join() which can raise a user exception is repeated after the exception (the task is
+    cancelled and finalised again): the node whose join threw has already lost the reference of this task, so the fold must give
+    it back on the exceptional path - otherwise the repeated fold decrements the counter below zero and the tree is never
+    unwound to the root.  Decided with exit_coverage on every instantiation of the derived tree folds."""
+    from rules.common import MayThrow, tree_folds, _refcount_decrement
+    mt = MayThrow(facts, external_may_throw=False)
+    summ = Summaries(facts, max_depth=3)
+
+    def gives_back(g, pos, e):
+        if not isinstance(e, int):
+            return False
+        op = atomic_op(g, e)
+        return bool(op and op['kind'] == 'rmw' and op['name'] in ('fetch_add', 'operator++', 'operator+=') and
+                    last_member(g, op['obj']) in ('m_ref_count', 'ref_count', 'my_ref_count'))
+    n = 0
+    for p_ in sorted(tree_folds(facts)):
+        for fn in facts.get(p_):
+            def throwing_user_call(g, pos, e):
+                return isinstance(e, int) and g.nodes[e].get('k') == 'call' and not _refcount_decrement(g, e) and mt.node(g, e)
+            nops, normal_ok, exc_ok, notes = exit_coverage(facts, summ, fn, throwing_user_call, gives_back, 'gives-reference-back')
+            if not nops:
+                continue
+            n += 1
+            rep.ob('D12', 'K9', fn, 'a tree fold gives the node its reference back when the join it calls throws', exc_ok,
+                   'user code called from the fold can throw and nothing restores the counter (%s): the fold is repeated after the '
+                   'exception and decrements the same node again - the tree is never unwound to the root, the algorithm does not return'
+                   % '; '.join(n_ for n_ in notes if 'throws' in n_), key_extra='fold-restore')
+    if n < 1:
+        raise AnalysisBroken('no tree fold calls a join that can throw (parallel_reduce is no longer instantiated by the drivers?)')
